@@ -412,6 +412,14 @@ def gen_cases(T, row, rng, quick):
             out.append({"row": [row["family"], row["revision"], row["mem_type"]], "init": init, "segs": spec, "sizes": size_class})
             if (mi == 0 and (not quick or (row["revision"] == "latest" and (init == 0 or rng.randrange(2) == 0)))) or (not quick and mi % 4 == 1):
                 out[-1]["extra"] = 1   # also pre_parse_verify and parse without memory type
+                # flash dump: trailing bytes behind the image (one short run, one that reaches beyond the next 1 KiB boundary)
+                out[-1]["trail"] = [rng.randrange(1, 64), 0x400 + rng.randrange(0, 0x800)]
+        # flash dump of an image whose floating last entry (secondary container set) is NOT supplied: trailing bytes inside the
+        # alignment gap and beyond it (where `_parse` starts looking for the floating entry in the trailing bytes)
+        if segs[-1][1] is None and (len(segs) - 1) not in chosen and (not quick or row["revision"] == "latest"):
+            for c in out[-len(inits):]:
+                if c["init"] == 0 and "trail" not in c:
+                    c["trail"] = [rng.randrange(1, 64), 0x400 + rng.randrange(0, 0x800)]
         # one request that is not exactly a segment offset (the setter rounds up); requests by segment name are covered by the
         # init_offset stream through the constructor (the configuration schema only admits numbers)
         if mi == 0 and len(statics) > 1:
@@ -420,6 +428,19 @@ def gen_cases(T, row, rng, quick):
 
 
 # ====================================================================================== evaluation of one case on the real code
+def _found(segs, pb):
+    out = []
+    for (kd, off), sg in zip(segs, pb._segments):
+        pres = pyres(lambda sg=sg: (not sg.excluded) and sg.is_present)
+        if pres[0] == "ok" and pres[1]:
+            raw = sg.export()
+            o = pyres(pb.get_segment_offset, sg)
+            out.append(f"{o[1] if o[0] == 'ok' else 'x'}:{len(raw)}:{adler(raw)}")
+        else:
+            out.append("-")
+    return out
+
+
 def run_case(T, F, case, rowinfo, full_cache):
     """Evaluate one case on the real code. -> dict(toks, blobs, merge, parse, fails, cls)"""
     from spsdk.image.bootable_image.bimg import BootableImage
@@ -597,6 +618,41 @@ def run_case(T, F, case, rowinfo, full_cache):
         pv = pyres(lambda: BootableImage.pre_parse_verify(data, fam, MemoryType.from_label(mt), rev).has_errors)
         if pv != ("ok", False):
             fail("pre_parse_verify reports errors for an image that export() produced", pv, None, finding)
+    # ---- flash dump: the image followed by trailing bytes (0x5A, neither fill pattern nor a container head)
+    if case.get("trail") and finding is None and not fails:
+        last_kd = segs[-1][0]
+        last_present = any(kd["label"] == last_kd["label"] for kd, _, _ in present)
+        res["trail"] = []
+        for n in case["trail"]:
+            tail = b"\x5a" * n
+            pt = pyres(BootableImage.parse, data + tail, fam, MemoryType.from_label(mt), rev)
+            if pt[0] == "ok":
+                line = f"P:{pt[1].init_offset};{','.join(_found(segs, pt[1]))}"
+            else:
+                line = "P:" + pt[0]
+            al = last_kd["align"]
+            in_gap = len(data) + n <= (len(data) + al - 1) // al * al
+            if last_kd["parser"] == "SegmentAhab":
+                res["trail"].append((n, line))
+                res["image"] = data
+                if last_present or in_gap:
+                    # statement (parse_export_trailing / parseAll_*_trailing): the same segments at the same offsets
+                    if line != res["parse"]:
+                        fail(f"{n} trailing bytes behind the exported image change what parse recovers", line, res["parse"])
+                res["cls"] += "/trail-" + ("same" if (last_present or in_gap) else "beyond-gap")
+            elif last_kd["parser"] in APP_PARSERS:
+                # whole-rest parsers (greedy_takes_tail): when the container parser accepts, the last segment is container + tail,
+                # everything else is found as without the trailing bytes; no claim when it refuses
+                if pt[0] == "ok":
+                    a, b0 = line.split(";")[-1].split(","), res["parse"].split(";")[-1].split(",")
+                    lastseg = pt[1]._segments[-1]
+                    want = next((raw for kd, _, raw in present if kd["label"] == last_kd["label"]), None)
+                    got = lastseg.export()
+                    if pt[1].init_offset != init or a[:-1] != b0[:-1] or want is None or got != want + tail:
+                        fail(f"{n} trailing bytes behind a whole-rest application segment: parse accepts but does not report the "
+                             "other segments unchanged and the application segment as container + trailing bytes",
+                             (line, len(got)), (res["parse"], None if want is None else len(want) + n))
+                res["cls"] += "/trail-rest-" + ("taken" if pt[0] == "ok" else "refused")
     # ---- parse without memory type: every memory type of the family is tried in database order
     if case.get("extra") and finding is None:
         mts = T.memtypes(fam, rev)
@@ -718,6 +774,14 @@ def feed(ck, s, drv, T, results):
                 init = seg_off if seg_off is not None else 0
             real = r["merge"] + ("|" + r["parse"] if r["parse"] is not None else "")
             reqs.append((case, f"rt {glay} {int(r['fcb'])} {init} {' '.join(r['toks'])}", real, bool(r.get("finding"))))
+            if r.get("trail") and r.get("image") is not None:
+                for n, line in r["trail"]:
+                    full = r["image"] + b"\x5a" * n
+                    bid = blob_id(full)
+                    if bid not in defined:
+                        defined.add(bid)
+                        reqs.append((("blob", bid), f"blob {bid} {full.hex()}", "ok", False))
+                    reqs.append((case, f"parse {glay} {int(r['fcb'])} {bid} {' '.join(r['toks'])}", line, False))
             if r.get("any") is not None and r.get("any_req") is not None:
                 own, lays = r["any_req"]
                 lays = [T.glay(x) for x in lays]
@@ -932,6 +996,38 @@ def run_glue(T, F, row, wdir):
             with open(outn, "rb") as fh:
                 if fh.read() != data[want:]:
                     fail("the image merged with the init offset given by segment name is not the full image from that segment on", named, want)
+    # ---- `nxpimage bootable-image get-templates`: one template per memory type of the family, each names every segment of that
+    #      memory type's table; the row's own template, filled with the case's segment files, merges to the same image
+    if rev == "latest":
+        tdir = os.path.join(wdir, "templates")
+        r = runner.invoke(nxpimage.main, ["bootable-image", "get-templates", "-f", fam, "-o", tdir])
+        if r.exit_code != 0:
+            fail("nxpimage bootable-image get-templates failed", (r.exit_code, str(r.exception)[:160]))
+        else:
+            for mrow in T.memtypes(fam, "latest"):
+                tp = os.path.join(tdir, f"bootimg_{fam}_{mrow['mem_type']}.yaml")
+                tl = pyres(lambda tp=tp: yaml.safe_load(open(tp)))
+                if tl[0] != "ok" or not isinstance(tl[1], dict):
+                    fail("get-templates wrote no readable template for a memory type of the family", (mrow["mem_type"], tl[0]))
+                    continue
+                tmpl = tl[1]
+                keys = [kd["cfg_key"] for kd, _ in T.segs(mrow)]
+                missing = [k for k in keys if k not in tmpl]
+                if tmpl.get("family") != fam or tmpl.get("memory_type") != mrow["mem_type"] or missing:
+                    fail("the template of a memory type does not name the family, the memory type and every segment of its table",
+                         (mrow["mem_type"], tmpl.get("family"), tmpl.get("memory_type"), missing))
+                if mrow["mem_type"] == mt and not missing:
+                    filled = {k: v for k, v in tmpl.items() if k not in keys}
+                    filled.update(cfg)
+                    topt = _yaml_dump(os.path.join(wdir, "bimg_from_template.yaml"), filled)
+                    outt = os.path.join(wdir, "from_template.bin")
+                    r = runner.invoke(nxpimage.main, ["bootable-image", "merge", "-c", topt, "-o", outt])
+                    if r.exit_code != 0 or not os.path.isfile(outt):
+                        fail("merge refuses the family's template filled with the segment files", (r.exit_code, str(r.exception)[:160]))
+                    else:
+                        with open(outt, "rb") as fh:
+                            if fh.read() != data:
+                                fail("the template filled with the segment files does not merge to the same image", None, len(data))
     return {"case": case, "fails": fails, "cls": "glue/" + ("+".join(kinds_yaml) or "binary-only")}
 
 
